@@ -24,6 +24,12 @@ of {`##phasing` line, PS, HP, PQ definition} present or absent, records with `|`
 without PS / HP / PQ values (undeclared keys are accepted by htslib), every ploidy; *header twins*: the same records under two
 different such headers must unphase to the same data lines (`file_records_whatever_header`); the histories through
 `whatshap phase` start from headers that declare none / some / all of the phase tags.
+Since round 10 also the TEXT level (`Model/C13Text.lean`): every data line of every file goes through `c13.line`
+(`unphaseLineText`): FORMAT and sample columns of the model's output text = those of the CLI's output line byte for byte; the first
+eight columns of the CLI's line = those of a plain pysam copy of the file (htslib re-renders QUAL / INFO numbers; not whatshap);
+`unphaseLineText` of the copy's line = the CLI's line as a whole; the model's `parseLine` = the harness' own text reader, before
+and after.  Every third file is also given as BCF (written with pysam): same data lines.  *polyphase histories*: a polyploid
+scenario phased with `whatshap polyphase`, then unphased, must give the data lines of the unphased input.
 """
 import collections, concurrent.futures, json, os, re, shutil, subprocess
 
@@ -32,6 +38,7 @@ import pysam
 from harness.gen import sim
 from harness.gen import c13_vcf as G
 from harness.gen import c04_file as F4
+from harness.gen import c15_poly
 
 RULE = ("case = one generated VCF (1-3 contigs, 0-4 samples, up to 14*scale records; ploidy 1-5 per call, '.', "
         "partially missing, phased/unphased/mixed separators, records without GT, FORMAT fields DP GQ AD FT PS PQ HP in "
@@ -71,6 +78,7 @@ ASSUMPTIONS = [
     "input is C09's subject, defect F4)",
 ]
 WORKERS = 6
+_SEEN = set()
 
 
 def err_class(stderr):
@@ -196,6 +204,41 @@ def unphase_stdin(overlay, text):
     return r.returncode, r.stdout, r.stderr
 
 
+def pysam_copy(path):
+    """the file read and written back by pysam without any change (what htslib alone does to the text)"""
+    with pysam.VariantFile(path) as reader:
+        out = path + ".copy.vcf"
+        recs = list(reader)      # first: htslib adds the definitions of undeclared keys to the header while it reads
+        with pysam.VariantFile(out, "w", header=reader.header) as w:
+            for rec in recs:
+                w.write(rec)
+    text = open(out).read()
+    os.remove(out)
+    return text
+
+
+def to_bcf(path):
+    out = path + ".bcf"
+    with pysam.VariantFile(path) as reader:
+        recs = list(reader)
+        with pysam.VariantFile(out, "wb", header=reader.header) as w:
+            for rec in recs:
+                w.write(rec)
+    return out
+
+
+def poly_case(rng):
+    """a small polyploid scenario for `whatshap polyphase` (serialised), some input genotypes written in descending order"""
+    k = rng.choice([3, 3, 4])
+    sc = c15_poly.PolyScenario.generate(rng, ploidy=k, n_variants=(4, 8), cov_per_hap=(4, 7), read_len=(80, 220))
+    for name in sc.contigs:
+        for i in range(len(sc.variants[name])):
+            if rng.random() < 0.3:
+                g = sc.gt_of("S1", name, i)
+                sc.gt_override[f"S1|{name}|{i}"] = "/".join(reversed(g.split("/")))
+    return {"kind": "polyhistory", "scenario": sc.as_case(), "ploidy": k}
+
+
 def c04_records(samples, recs):
     """records of parse_vcf_text in the JSON of the C04 model (for the bridge `ofC04`)"""
     out = []
@@ -241,9 +284,11 @@ def scenario_case(rng):
 def run(ctx):
     rng = ctx.rng
     wd = ctx.workdir()
+    quiet = pysam.set_verbosity(0)       # htslib's warnings about undeclared keys (used on purpose) when this process copies a file
     try:
         _run(ctx, rng, wd)
     finally:
+        pysam.set_verbosity(quiet)
         shutil.rmtree(wd, ignore_errors=True)
 
 
@@ -262,6 +307,8 @@ def _run(ctx, rng, wd):
             cases.append(c)
         for i in range(n_hist):
             cases.append(scenario_case(rng))
+        for i in range((4 if ctx.quick else 12) * ctx.scale):
+            cases.append(poly_case(rng))
         for i in range((20 if ctx.quick else 250) * ctx.scale):
             c = G.gen_case(rng, scale=1 if ctx.quick else rng.choice([1, 2]), exotic=True)
             c["input"] = "path"
@@ -296,6 +343,17 @@ def _run(ctx, rng, wd):
                 p2 = os.path.join(d, "twin.vcf")
                 open(p2, "w").write(text2)
                 res["inputs"].append(("twin", p2, text2))
+        elif case.get("kind") == "polyhistory":
+            sc = c15_poly.PolyScenario.from_case(case["scenario"])
+            fa, bam, vcf = sc.write(d)
+            phased = os.path.join(d, "polyphased.vcf")
+            rc, out, err, _ = sim.whatshap(["polyphase", vcf, bam, "--ploidy", str(case["ploidy"]), "-o", phased, "--reference", fa],
+                                           ctx.overlay, timeout=900)
+            res["phase_rc"] = rc
+            res["phase_err"] = err[-400:]
+            res["inputs"] = [("original", vcf, open(vcf).read())]
+            if rc == 0:
+                res["inputs"].append(("polyphased", phased, open(phased).read()))
         else:
             fa, bam, vcf, phased = (os.path.join(d, n) for n in ("ref.fasta", "in.bam", "in.vcf", "phased.vcf"))
             sim.write_fasta(fa, case["fasta"])
@@ -332,6 +390,18 @@ def _run(ctx, rng, wd):
                 if idx % 4 == 0:
                     rc3, out3, err3 = unphase_stdin(ctx.overlay, text)
                     run.update(rc3=rc3, out3=out3, err3=err3)
+                try:
+                    run["copy"] = pysam_copy(p)
+                except Exception as e:                   # htslib itself cannot write the file back
+                    run["copy_err"] = f"{type(e).__name__}: {e}"[:160]
+                if idx % 3 == 1:                         # the same file as BCF
+                    try:
+                        b = to_bcf(p)
+                    except Exception as e:
+                        run["bcf_err"] = f"{type(e).__name__}: {e}"[:160]
+                    else:
+                        rc5, out5, err5 = unphase(b)
+                        run.update(rc5=rc5, out5=out5, err5=err5)
                 if case.get("input") == "gz":           # the same file bgzipped
                     pysam.tabix_compress(p, p + ".gz", force=True)
                     rc4, out4, err4 = unphase(p + ".gz")
@@ -354,9 +424,12 @@ def _run(ctx, rng, wd):
                          {"op": "c13.header", "header": hlines(run["in_text"])},
                          {"op": "c13.of_c04", "records": c04_records(samples, recs)}))
             where.append((ci, ri))
+            lines = data_lines(run["in_text"]) + (data_lines(run["copy"]) if "copy" in run else [])
+            reqs[-1] = reqs[-1] + ({"op": "c13.line", "lines": lines},)
     # one file per round trip: requests carry whole files, 200 of them would overfill the pipe buffers
     answers = [[ctx.model.ask_many([r])[0] for r in rs] for rs in reqs]
-    for (ci, ri), (ans, hans, bans) in zip(where, answers):
+    for (ci, ri), (ans, hans, bans, lans) in zip(where, answers):
+        results[ci]["runs"][ri]["model_line"] = lans
         results[ci]["runs"][ri]["model"] = ans
         results[ci]["runs"][ri]["model_header"] = hans
         results[ci]["runs"][ri]["model_bridge"] = bans
@@ -425,7 +498,7 @@ def _run(ctx, rng, wd):
             # header, correspondence: the lines in order (`unphaseHeader`)
             if "cur" not in mh:
                 ctx.disagree("c13.header", case, "input header not accepted by the driver", mh)
-            elif [hkey(h) for h in h_out] not in ([hkey(h) for h in mh["cur"]], [hkey(h) for h in mh["fix"]]):
+            elif kind != "polyhistory" and [hkey(h) for h in h_out] not in ([hkey(h) for h in mh["cur"]], [hkey(h) for h in mh["fix"]]):
                 # admissible: the code as it is (first `phasing` line removed) or after fixes/F61.patch (all of them)
                 ctx.disagree("c13.header", case, [hkey(h) for h in h_out], [hkey(h) for h in mh["cur"]])
             if run.get("rc2") != 0:
@@ -438,9 +511,76 @@ def _run(ctx, rng, wd):
                 ctx.fail(tag + "unphase is not idempotent: the second application changes the header (lines removed: "
                          + "; ".join(f"##{k}={t or i}" for k, i, t in lost) + ")", case,
                          key="F61-second-phasing-line" if only_phasing else "not-idempotent-header")
-            if run.get("rc2") == 0 and "cur2" in mh and [hkey(h) for h in hlines(run["out2"])] not in (
+            if kind != "polyhistory" and run.get("rc2") == 0 and "cur2" in mh and [hkey(h) for h in hlines(run["out2"])] not in (
                     [hkey(h) for h in mh["cur2"]], [hkey(h) for h in mh["fix"]]):
                 ctx.disagree("c13.header(twice)", case, [hkey(h) for h in hlines(run["out2"])], [hkey(h) for h in mh["cur2"]])
+            # ---- the TEXT level: `unphaseLineText` on every data line (round 10)
+            ml = run["model_line"]
+            d_in, d_out = data_lines(run["in_text"]), data_lines(run["out"])
+            if "out" not in ml:
+                ctx.disagree("c13.line", case, "lines not accepted by the driver", ml)
+            elif len(d_in) == len(d_out):
+                n = len(d_in)
+                d_copy = data_lines(run["copy"]) if "copy" in run else None
+                if d_copy is not None and len(d_copy) != n:
+                    ctx.observe("a plain pysam copy has another number of data lines than the input")
+                    d_copy = None
+                ctx.dist("text_lines", "with-copy" if d_copy is not None else "no-copy")
+                mrecs_in = G.model_records(recs)
+                for i in range(n):
+                    ci_, co_ = d_in[i].split("\t"), d_out[i].split("\t")
+                    cm = ml["out"][i].split("\t")
+                    if cm[8:] != co_[8:]:
+                        ctx.disagree("c13.line", case, {"line": i, "input": d_in[i], "cli": "\t".join(co_[8:])}, {"model": "\t".join(cm[8:])})
+                    if cm[:8] != ci_[:8]:
+                        ctx.disagree("c13.line(fixed)", case, {"line": i, "input": ci_[:8]}, {"model": cm[:8]})
+                    if ml["rec"][i] != mrecs_in[i]:
+                        ctx.disagree("c13.line(parse)", case, {"line": i, "reader": mrecs_in[i]}, {"model": ml["rec"][i]})
+                    if ml["rec_out"][i] != model["spec"][i]:
+                        ctx.disagree("c13.line(parse-out)", case, {"line": i, "unphase(record)": model["spec"][i]}, {"parse(unphase(text))": ml["rec_out"][i]})
+                    if len(cm) > 8 and any(len(x.split(":")) != len(cm[8].split(":")) for x in cm[9:]):
+                        ctx.disagree("c13.line(padded)", case, {"line": i}, {"model": ml["out"][i]})
+                    if ml["out"][i] != d_out[i]:
+                        ctx.dist("text_line", "fixed-columns-re-rendered-by-htslib" if cm[8:] == co_[8:] else "differs")
+                        if cm[8:] == co_[8:] and "norm" not in _SEEN:
+                            _SEEN.add("norm")
+                            ctx.observe("htslib normalisation of the fixed columns (not whatshap; a plain pysam copy does the same): "
+                                        + repr(ci_[:8]) + " -> " + repr(co_[:8]))
+                    else:
+                        ctx.dist("text_line", "byte-identical")
+                    if d_copy is not None:
+                        cc = d_copy[i].split("\t")
+                        if cc[:8] != co_[:8]:
+                            ctx.fail(tag + f"data line {i}: the first eight columns differ from a plain pysam copy of the input: "
+                                     f"{cc[:8]} -> {co_[:8]}", case, key="fixed-changed-vs-copy")
+                        if ml["out"][n + i] != d_out[i]:
+                            ctx.disagree("c13.line(copy)", case, {"line": i, "copy": d_copy[i], "cli": d_out[i]}, {"model": ml["out"][n + i]})
+            if "copy_err" in run:
+                ctx.observe("pysam cannot copy a generated file: " + run["copy_err"][:100])
+            # BCF input
+            if "bcf_err" in run:
+                ctx.observe("pysam cannot write a generated file as BCF: " + run["bcf_err"][:100])
+            if "rc5" in run:
+                ctx.dist("bcf", "ok" if run["rc5"] == 0 else "fails")
+                if run["rc5"] != 0:
+                    ctx.fail(tag + "`whatshap unphase` fails with " + err_class(run["err5"]) + " on the BCF form of a file it accepts as VCF",
+                             case, key="bcf-unphase-raises")
+                elif data_lines(run["out5"]) != data_lines(run["out"]):
+                    a5, a0 = data_lines(run["out5"]), data_lines(run["out"])
+                    first = next((i for i, (x, y) in enumerate(zip(a5, a0)) if x != y), None)
+                    ctx.fail(tag + f"the BCF form of the file unphases to other data lines than the VCF (line {first}: "
+                             f"{(a5[first] if first is not None else len(a5))!r} vs {(a0[first] if first is not None else len(a0))!r})",
+                             case, key="bcf-differs")
+                else:
+                    for what, key in oracle(run["in_text"], run["out5"]):
+                        ctx.fail(tag + "[bcf] " + what, case, key=key)
+                    hb = [l for l in run["out5"].split("\n") if l.startswith("##")]
+                    hv = [l for l in run["out"].split("\n") if l.startswith("##")]
+                    if sorted(hb) != sorted(hv):
+                        ctx.dist("bcf_header", "differs-from-vcf-run")
+                    if any(l.startswith("##phasing=") or any(l.startswith(f"##FORMAT=<ID={t},") for t in G.PHASE_TAGS) for l in hb):
+                        ctx.fail(tag + "[bcf] the output header still has a phasing line or a phase-tag definition", case,
+                                 key="header-phase-format-left")
             # standard input instead of a path
             if "rc3" in run:
                 ctx.dist("stdin", "ok" if run["rc3"] == 0 else "fails")
@@ -459,7 +599,8 @@ def _run(ctx, rng, wd):
             keep = lambda t: [l for l in t.split("\n") if l.startswith("##") and not l.startswith("##phasing=")
                               and not any(l.startswith(f"##FORMAT=<ID={x},") for x in G.PHASE_TAGS)]
             k_in, k_out = keep(run["in_text"]), keep(run["out"])
-            if k_in != k_out and sorted(k_in) == sorted(k_out):
+            # (polyphase scenarios are written by sim.write_vcf, whose header htslib re-orders on reading: records only)
+            if kind != "polyhistory" and k_in != k_out and sorted(k_in) == sorted(k_out):
                 ctx.fail(tag + "the header lines that are kept come out in a different order", case, key="header-order-changed")
             # the bridge from the C04 record model: same records, same result
             mb = run["model_bridge"]
@@ -511,6 +652,19 @@ def _run(ctx, rng, wd):
                 if keep(ra["out"]) != keep(rb["out"]):
                     ctx.fail("[edit] the unphased headers of original and edited file differ beyond ##phasing lines", case,
                              key="unphase-edit-header-differs")
+        if kind == "polyhistory":
+            if res["phase_rc"] != 0:
+                ctx.observe("whatshap polyphase failed on a generated scenario: " + res["phase_err"][-120:])
+            elif len(res["runs"]) == 2 and all(r["rc"] == 0 for r in res["runs"]):
+                a, b = (data_lines(r["out"]) for r in res["runs"])
+                n_ph = sum(l.count("|") for l in data_lines(res["runs"][1]["in_text"]))
+                ctx.dist("polyhistory_phase_separators", min(n_ph, 30) // 6 * 6)
+                ctx.dist("polyhistory_ploidy", case["ploidy"])
+                if a != b:
+                    first = next((i for i, (x, y) in enumerate(zip(a, b)) if x != y), None)
+                    ctx.fail(f"[polyhistory] unphase(polyphase(v)) differs from unphase(v) at data line {first}: "
+                             f"{(a[first] if first is not None else len(a))!r} vs {(b[first] if first is not None else len(b))!r}",
+                             case, key="unphase-polyphase-neq-unphase")
         if kind == "history" and res.get("rephase_err"):
             ctx.observe("second whatshap phase of a history failed: " + res["rephase_err"][-100:])
         if kind == "history" and len(res["runs"]) == 3 and all(r["rc"] == 0 for r in res["runs"]):
